@@ -3,7 +3,7 @@
 Rule R5 (class invariant): every public mutator maps WF states to WF states at normal exit, hence WF
 holds after every history. P: the users-index primitives against their contracts; _emplace_gate /
 _add_gate / add_gate / emplace_gate for gates of ARBITRARY arity (prefix-count loop invariant),
-remove_gate (incl. blocks), mark_as_output, set_outputs, delete_block — all on an arbitrary WF circuit.
+remove_gate (incl. blocks), rename_gate (c19_rename.py), mark_as_output, set_outputs, delete_block — all on an arbitrary WF circuit.
 B: histories of all public mutators incl. connect_circuit family, replace_subcircuit, copy (vlib/bounded/C02.py)."""
 import z3
 
@@ -99,11 +99,7 @@ class AddGateLike(CircuitContract):
             ctx.assume(z3.Not(S0.dom(lab)))
             ctx.assume(z3.ForAll([i], z3.Implies(z3.And(i >= 0, i < ops.n), S0.dom(ops.elem(i)))))
         key = (CIRC + '::Circuit.' + ('_emplace_gate' if 'emplace' in self.fn else '_add_gate'), 1)
-        if 'emplace' in self.fn:
-            get = lambda it_, env: (env['operands'], lab)
-        else:
-            get = lambda it_, env: (env['new_gate'].fields['_operands'], lab)
-        it.loop_specs[key] = CM.UsersLoop(h, get, +1)
+        it.loop_specs[key] = CM.UsersLoop(h, lab, +1)
         opsv = CM.as_ops(ops)
         if 'emplace' in self.fn:
             args = [c, Sym(lab), Sym(ty), opsv]
@@ -150,7 +146,7 @@ class RemoveGate(CircuitContract):
         c, h = self.circuit(it, ctx)
         S0 = h.S
         lab = z3.Const('lab', LabelSort)
-        it.loop_specs[(CIRC + '::Circuit._remove_gate', 1)] = CM.UsersLoop(h, lambda it_, env: (env['cur_gate'].fields['_operands'], lab), -1)
+        it.loop_specs[(CIRC + '::Circuit._remove_gate', 1)] = CM.UsersLoop(h, lab, -1)
         # link of the two operand views of the removed gate (representation fact of its tuple) is supplied by UsersLoop
         return [c, Sym(lab)], {}, {'h': h, 'S0': S0, 'lab': lab}
 
@@ -256,9 +252,11 @@ class DeleteBlock(CircuitContract):
 
 
 def contracts():
-    return [UserPrim('_add_user'), UserPrim('_remove_user'),
+    from .c19_rename import RenameGate
+    return [RenameGate(), UserPrim('_add_user'), UserPrim('_remove_user'),
             AddGateLike('_emplace_gate', False), AddGateLike('_add_gate', False), AddGateLike('emplace_gate', True), AddGateLike('add_gate', True),
             RemoveGate(), MarkAsOutput(), SetOutputs(), DeleteBlock()]
+
 
 
 def run(rep):
@@ -268,8 +266,8 @@ def run(rep):
                                             'background lemmas on tuples: count view = full prefix count; prefix counts are monotone']
     for a in STD_ASSUME:
         rep.assume(a)
-    rep.assume('P covers _add_user, _remove_user, _emplace_gate, _add_gate, emplace_gate, add_gate, remove_gate/_remove_gate, mark_as_output, set_outputs, delete_block; '
-               'the remaining mutators (rename_gate, set_inputs, add_inputs, replace_inputs, order_*, make_block*, connect_circuit family, replace_subcircuit, remove_block, into_bench loop, __copy__) are bounded-only here '
+    rep.assume('P covers _add_user, _remove_user, _emplace_gate, _add_gate, emplace_gate, add_gate, remove_gate/_remove_gate, rename_gate, mark_as_output, set_outputs, delete_block; '
+               'the remaining mutators (set_inputs, add_inputs, replace_inputs, order_*, make_block*, connect_circuit family, replace_subcircuit, remove_block, into_bench loop, __copy__) are bounded-only here '
                '(into_bench per gate: C14)')
     it = new_interp()
     pv = Prover(rep, it, 'C02')
